@@ -1,1 +1,32 @@
-fn main() { println!("{}", air::interpreter_version()); }
+mod util;
+mod host;
+mod props;
+
+use util::{Driver, Report};
+
+pub struct Ctx { pub tier: String, pub seed: u64, pub driver: Driver, pub thorough: bool, pub replay: Option<String> }
+
+fn main() {
+    let args: Vec<String> = std::env::args().collect();
+    if args.len() < 6 {
+        eprintln!("usage: aquaharness <property> <quick|thorough> <seed> <driver> <report.json> [replay-file]");
+        std::process::exit(2);
+    }
+    let prop = args[1].clone();
+    let tier = args[2].clone();
+    let seed: u64 = args[3].parse().unwrap_or(0);
+    let driver = Driver::spawn(&args[4]);
+    let mut ctx = Ctx { thorough: tier == "thorough", tier, seed, driver, replay: args.get(6).cloned() };
+    // silence panic messages of caught panics (they are reported through the report)
+    std::panic::set_hook(Box::new(|_| {}));
+    let t0 = std::time::Instant::now();
+    let report: Report = match prop.as_str() {
+        "C21" => props::c21::run(&mut ctx),
+        "C22" => props::c22::run(&mut ctx),
+        _ => { eprintln!("unknown property {prop}"); std::process::exit(2); }
+    };
+    let mut j = report.to_json();
+    j["wall_s"] = serde_json::json!(t0.elapsed().as_secs_f64());
+    j["driver_requests"] = serde_json::json!(ctx.driver.requests);
+    std::fs::write(&args[5], serde_json::to_string_pretty(&j).unwrap()).unwrap();
+}
